@@ -11,6 +11,9 @@ A *case descriptor* for the tool table is plain JSON:
    "plan": [0, 0, ...]      # which output the consumer advances at each step
    "close": true}
 """
+import os
+
+from . import env
 from .values import mat, mats, sig
 from .driver import Ctx, run, loop_mode
 from .doubles import make_source, Fn, CallSource
@@ -359,5 +362,18 @@ def expect_return(outcome, bucket, case=None):
     if outcome[0] == "return":
         return outcome[1]
     if outcome[0] == "raise":
-        raise HarnessError(f"scenario crashed: {outcome[1]!r}") from outcome[1]
+        exc = outcome[1]
+        # Where did it come from?  An exception that passed through a frame of the library at a place where the
+        # scenario expects none (closing a group, asking for statistics, entering a scope ...) is the library doing
+        # something it does not do on the unchanged tree - that is a finding, not a crash of the harness.
+        tb, through_library = getattr(exc, "__traceback__", None), False
+        lib = os.path.join(env.REPO, "asyncstdlib") + os.sep
+        while tb is not None:
+            if tb.tb_frame.f_code.co_filename.startswith(lib):
+                through_library = True
+                break
+            tb = tb.tb_next
+        if through_library:
+            raise Violation(f"{bucket}/unexpected-exception-out-of-the-library", f"{exc!r}", case=case) from exc
+        raise HarnessError(f"scenario crashed: {exc!r}") from exc
     raise Violation(f"{bucket}/{outcome[0]}", repr(outcome), case=case)
